@@ -24,6 +24,14 @@ impl Version {
     }
 }
 
+#[cfg(domain_verif)]
+impl Version {
+    /// The version as a plain number (verification hooks only).
+    pub fn verif_int(self) -> u64 {
+        u64::from(self.0.into_int())
+    }
+}
+
 impl Default for Version {
     fn default() -> Self {
         Version(0.into())
